@@ -178,7 +178,7 @@ func TestC16_Connection(t *testing.T) {
 // ---- the span-cache switch must not change any result, failures included ----------------------------------
 
 func TestC16_SpanErrors(t *testing.T) {
-	rec := evid.New("C16", "c16_span_errors", "enumeration: every strict prefix and three negative-size variants of five valid encodings (a 9-byte and a 300-byte string, a message header, an ApplicationException body, a Base body with a map) given to Binary.ReadString, Binary.ReadBinary, Binary.ReadMessageBegin, ApplicationException.FastRead, Base.FastRead and ConvertUnknownFields with the span cache off and on: value, consumed length, error text and exception type id must be identical under both settings; every (entry point, input) is one evaluation; distinct by construction")
+	rec := evid.New("C16", "c16_span_errors", "enumeration: every strict prefix and three negative-size variants of five valid encodings (an empty, a 1-byte, a 9-byte and a 300-byte string, a message header, an ApplicationException body, a Base body with a map) given to Binary.ReadString, Binary.ReadBinary, Binary.ReadMessageBegin, ApplicationException.FastRead, Base.FastRead and ConvertUnknownFields with the span cache off and on: value (for byte slices also whether it is nil), consumed length, error text and exception type id must be identical under both settings; every (entry point, input) is one evaluation; distinct by construction")
 	defer rec.Flush()
 	rec.Assume("the span-cache switch is flipped between (sequential) calls only")
 	defer thrift.SetSpanCache(false)
@@ -186,7 +186,7 @@ func TestC16_SpanErrors(t *testing.T) {
 	aeBody := append(append([]byte{0x0b, 0, 1}, str(200)...), 0x08, 0, 2, 0, 0, 0, 6, 0)
 	baseBody := append(append(append([]byte{0x0b, 0, 1}, str(150)...), 0x0d, 0, 6, 0x0b, 0x0b, 0, 0, 0, 1), append(str(130), str(140)...)...)
 	baseBody = append(baseBody, 0)
-	valids := [][]byte{str(9), str(300), refMsgHeader(string(patternBytes(3, 140)), 1, 5), aeBody, baseBody}
+	valids := [][]byte{str(0), str(1), str(9), str(300), refMsgHeader(string(patternBytes(3, 140)), 1, 5), aeBody, baseBody}
 	type result struct {
 		val  string
 		n    int
@@ -209,7 +209,11 @@ func TestC16_SpanErrors(t *testing.T) {
 		f    func(b []byte) result
 	}{
 		{"Binary.ReadString", func(b []byte) result { s, n, e := thrift.Binary.ReadString(b); return describe(s, n, e) }},
-		{"Binary.ReadBinary", func(b []byte) result { s, n, e := thrift.Binary.ReadBinary(b); return describe(string(s), n, e) }},
+		{"Binary.ReadBinary", func(b []byte) result {
+			s, n, e := thrift.Binary.ReadBinary(b)
+			// whether an empty result is nil or an empty non-nil slice is part of the result
+			return describe(fmt.Sprintf("nil=%v cap>len=%v|", s == nil, false)+string(s), n, e)
+		}},
 		{"Binary.ReadMessageBegin", func(b []byte) result {
 			s, _, _, n, e := thrift.Binary.ReadMessageBegin(b)
 			return describe(s, n, e)
@@ -294,7 +298,7 @@ func init() {
 				return s, fmt.Sprint(e)
 			case "Binary.ReadBinary":
 				s, _, e := thrift.Binary.ReadBinary(b)
-				return string(s), fmt.Sprint(e)
+				return fmt.Sprintf("nil=%v|", s == nil) + string(s), fmt.Sprint(e)
 			case "Binary.ReadMessageBegin":
 				s, _, _, _, e := thrift.Binary.ReadMessageBegin(b)
 				return s, fmt.Sprint(e)
